@@ -71,7 +71,8 @@ Record opts := mkOpts {
   o_fdisk_parity : list bool;    (* per level: the -d filters select this parity by name *)
   o_ffile : bool;                (* some -f filter given *)
   o_missing : bool;              (* -m *)
-  o_error : bool                 (* -e / -b *)
+  o_error : bool;                (* -e / -b *)
+  o_plan_conflict : bool         (* scrub: -o given together with -p bad|new|full (scrub.c:754-760) *)
 }.
 
 (* per data disk, what the scan will count (scan.c counters) *)
@@ -206,10 +207,14 @@ Definition all_content (p : pre) : list effect :=
 Definition log_eff (o : opts) : list effect := if o_log o then [WLog] else [].
 
 (* state_read: Some tt = loaded (or "assuming empty"), None = exit *)
+(* snapraid.c:1203-1214: status, list, dup do not access the data disks: no UUID is read, so no UUID-change count and no
+   rename of a disk by UUID *)
+Definition skips_disk_access (c : command) : bool := match c with Status | ListC | Dup => true | _ => false end.
+
 Definition read_ok (c : command) (o : opts) (p : pre) : bool :=
   if negb (p_content_found p) then true
   else p_content_ok p && negb (p_bs_mismatch p) && negb (p_hs_mismatch p) && negb (p_unknown_disk p)
-       && negb (uuid_trigger o p).
+       && negb (negb (skips_disk_access c) && uuid_trigger o p).
 
 Definition resize_effects (flags : list bool) (lv : list nat) (excl : nat -> bool) : list effect :=
   flat_map (fun l => if negb (excl l) && nth_bool flags l false then [RszParity (N.of_nat l)] else []) lv.
@@ -239,7 +244,8 @@ Definition sync_body (o : opts) (p : pre) : list effect * exitclass :=
 (* ---------------------------------------------------------------------------------------------------- scrub *)
 
 Definition scrub_body (o : opts) (p : pre) : list effect * exitclass :=
-  if p_array_empty p then ([], ExRefused)                                             (* scrub.c:816-821 *)
+  if o_plan_conflict o then ([], ExRefused)                                            (* scrub.c:754-760 *)
+  else if p_array_empty p then ([], ExRefused)                                             (* scrub.c:816-821 *)
   else if negb (forallb (fun l => nth_bool (p_parity_open p) l false) (levels p)) then ([], ExRefused)    (* 874 *)
   else
     let nw := p_read_need_write p || negb (is0 (p_scrub_stripes p)) in
